@@ -11,7 +11,7 @@ def main():
     exe = build_harness('asan', 'enh_driver', ['enh_driver.cpp', 'vbus.cpp'], wraps=WRAPS_BUS)
     ln = 5 if c.thorough else 4
     shards = 16
-    cmds = [[exe, 'mode=requests']]
+    cmds = [[exe, 'mode=requests'], [exe, 'mode=syncount']]
     cmds += [[exe, 'mode=exh', 'len=%d' % ln, 'shard=%d' % i, 'shards=%d' % shards] for i in range(shards)]
     cmds += [[exe, 'mode=transport', 'seed=%d' % (c.seed * 100 + i), 'n=%d' % (20000 if c.thorough else 1500)] for i in range(4)]
     cmds += [[exe, 'mode=random', 'seed=%d' % (c.seed * 100 + 50 + i), 'n=%d' % (6000 if c.thorough else 150)] for i in range(12)]
